@@ -16,6 +16,10 @@ def run(ctx):
     # two-step receive (get … put the ENDMARKER back) against Model/NetFine.lean, guarded and unguarded histories
     netfine.fine_level(ctx, res, PROP, ctx.budget(80, 15000, 300))
     netprops.run_scenarios(ctx, res, netprops.scenario_close, ctx.budget(200, 48000, 600), "close")
+    netprops.process_level_backlog(ctx, res)
+    # 'by the end of the remote_exec': a body that fails — whatever the text of its failure — still closes its channel behind its data
+    from . import c07
+    c07.error_text_probe(ctx, res)
     return res
 
 
